@@ -17,9 +17,9 @@ CONSTANTS
  Mode = "S"
  MCSPE = 2
  MCEpochs <- E0
- MCSlots = {3, 5}
+ MCSlots = {3}
  MCSOps <- OpsPP
- MCValSets <- A123
+ MCValSets <- A13
  MCMaxReal = 0
  MCBlocks <- Blk2
  MCErrs = FALSE
